@@ -358,6 +358,36 @@ def r23top(ctx: Ctx) -> RuleReport:
 ORDER_BREAKERS = {'sorted', 'set', 'frozenset', 'reversed', 'dict', 'shuffle', 'sample'}
 
 
+def _as_comprehension(ctx, fi, a):
+    """filter(N.__contains__, S) / filter(lambda t: t in N, S) (the predicate possibly through a local name) as the generator (t for t in S if t in N)"""
+    if isinstance(a, ast.Name):
+        a = single_def(ctx, fi, a)
+    if isinstance(a, ast.Call) and norm(a.func) in ('list', 'tuple') and len(a.args) == 1:
+        inner = _as_comprehension(ctx, fi, a.args[0])
+        if isinstance(inner, (ast.GeneratorExp, ast.ListComp)):
+            return inner
+    if isinstance(a, ast.Call) and norm(a.func) in ('filter', 'filterfalse', 'itertools.filterfalse') and len(a.args) == 2:
+        negate = norm(a.func) != 'filter'
+        pred = a.args[0]
+        if isinstance(pred, ast.Name):
+            pred = single_def(ctx, fi, pred)
+        N = None
+        if isinstance(pred, ast.Attribute) and pred.attr == '__contains__':
+            N = pred.value
+        elif isinstance(pred, ast.Lambda) and len(pred.args.args) == 1 and isinstance(pred.body, ast.Compare) and len(pred.body.ops) == 1 \
+                and isinstance(pred.body.ops[0], ast.In) and norm(pred.body.left) == pred.args.args[0].arg:
+            N = pred.body.comparators[0]
+        if N is not None:
+            t = ast.Name(id='_t', ctx=ast.Load())
+            g = ast.GeneratorExp(elt=t, generators=[ast.comprehension(target=ast.Name(id='_t', ctx=ast.Store()), iter=a.args[1],
+                                                                     ifs=[ast.Compare(left=ast.Name(id='_t', ctx=ast.Load()), ops=[ast.NotIn() if negate else ast.In()], comparators=[N])],
+                                                                     is_async=0)])
+            ast.copy_location(g, a)
+            ast.fix_missing_locations(g)
+            return g
+    return a
+
+
 @rule('R39', 'graph queries and union keep the order of the triple list')
 def r39(ctx: Ctx) -> RuleReport:
     rep = RuleReport('R39', r39.title, floor=5)
@@ -379,8 +409,7 @@ def r39(ctx: Ctx) -> RuleReport:
     good = False
     for c in ext:
         a = c.args[0] if c.args else None
-        if isinstance(a, ast.Name):
-            a = single_def(ctx, ior, a)
+        a = _as_comprehension(ctx, ior, a)
         if isinstance(a, (ast.GeneratorExp, ast.ListComp)) and len(a.generators) == 1 and \
                 norm(a.generators[0].iter) == f'{ior.positional[1]}.triples' and isinstance(a.elt, ast.Name) \
                 and isinstance(a.generators[0].target, ast.Name) and a.elt.id == a.generators[0].target.id:
@@ -408,8 +437,7 @@ def r39(ctx: Ctx) -> RuleReport:
     op = ior.positional[1]
     for c in ext:
         a = c.args[0] if c.args else None
-        if isinstance(a, ast.Name):
-            a = single_def(ctx, ior, a)
+        a = _as_comprehension(ctx, ior, a)
         if not (isinstance(a, (ast.GeneratorExp, ast.ListComp)) and len(a.generators) == 1 and norm(a.generators[0].iter) == f'{op}.triples'):
             continue
         g0 = a.generators[0]
@@ -438,8 +466,8 @@ def r39(ctx: Ctx) -> RuleReport:
     good = False
     for n in walk_local(isub.node):
         if isinstance(n, ast.Assign) and norm(n.targets[0]) in ('self.triples[:]', 'self.triples'):
-            v = n.value
-            if isinstance(v, ast.ListComp) and len(v.generators) == 1 and norm(v.generators[0].iter) == 'self.triples' \
+            v = _as_comprehension(ctx, isub, n.value)
+            if isinstance(v, (ast.ListComp, ast.GeneratorExp)) and len(v.generators) == 1 and norm(v.generators[0].iter) == 'self.triples' \
                     and isinstance(v.elt, ast.Name) and v.elt.id == v.generators[0].target.id:
                 good = True
     removes = [n for n in walk_local(isub.node) if isinstance(n, ast.Call) and isinstance(n.func, ast.Attribute) and n.func.attr == 'remove'
@@ -925,8 +953,17 @@ def r130(ctx: Ctx) -> RuleReport:
     op = fi.positional[1]
     las = ctx.cg.local_assigns(fi)
     set_names = {nm for nm, vals in las.items() if any(isinstance(v, ast.AST) and _is_set_typed(ctx, fi, v) for v in vals)}
+    def _is_their(e):
+        if isinstance(e, ast.Name):
+            e = single_def(ctx, fi, e)
+        return norm(e) == f'{op}.epidata'
+
+    def _is_own(e):
+        if isinstance(e, ast.Name):
+            e = single_def(ctx, fi, e)
+        return norm(e) == 'self.epidata'
     updates = [n for n in walk_local(fi.node) if isinstance(n, ast.Call) and isinstance(n.func, ast.Attribute) and n.func.attr == 'update'
-               and norm(n.func.value) == 'self.epidata' and n.args and norm(n.args[0]) == f'{op}.epidata']
+               and _is_own(n.func.value) and n.args and _is_their(n.args[0])]
     stores = [n for n in walk_local(fi.node) if isinstance(n, ast.Assign) and isinstance(n.targets[0], ast.Subscript) and norm(n.targets[0].value) == 'self.epidata']
     key = f'{fi.fq}: every added triple brings its markers along'
     if updates:
